@@ -308,6 +308,12 @@ def run_case(case, ctx):
                 S.atom_types = np.array(S.atom_types)
                 S.atom_types[members[1::2]] = len(els_)
                 st.count("inputs_with_two_atom_types_of_one_element")
+        if rng.integers(3) == 0:
+            # atoms stored un-wrapped (LAMMPS dumps, Cartesian CIFs): a third of them moved out of the box by lattice vectors
+            cm = np.array(S.cell, float)
+            for i_ in rng.choice(len(S), size=max(1, len(S) // 3), replace=False):
+                S.positions[int(i_)] += rng.integers(-1, 2, 3).astype(float).dot(cm)
+            st.count("inputs_with_atoms_outside_the_cell")
         inp = os.path.join(tmp, "in." + case["informat"])
         S.save(inp)
         rep = replcase.make_replacement(rng, pat, ["equal_substitution", "larger_shared", "smaller_shared", "far_reaching", "empty"][int(rng.integers(5))])
